@@ -50,6 +50,13 @@ Definition api_mpz_add_ui : api := fun a => out_mpz (mpz_add_ui (argmpz a 0) (ar
 Definition api_mpz_sub_ui : api := fun a => out_mpz (mpz_sub_ui (argmpz a 0) (argz a 1)).
 Definition api_mpz_ui_sub : api := fun a => out_mpz (mpz_ui_sub (argz a 1) (argmpz a 0)).
 Definition api_mpz_mul_2exp : api := fun a => out_mpz (mpz_mul_2exp (argmpz a 0) (argz a 1)).
+(* mpz_mul_2exp_big U CNT : shift counts of 2^32 bits and more; the result (half a gigabyte) is not printed but observed through its
+   bit length, the position of its lowest set bit, its sign, and whether shifting it back gives U: the consequences of
+   C03's mpz_mul_2exp theorem (result = U * 2^CNT) for these observables *)
+Definition api_mpz_mul_2exp_big : api := fun a =>
+  let u := argz a 0 in let cnt := argz a 1 in
+  if u =? 0 then [TZ 1; TZ (-1); TZ 0; TZ 1]
+  else [TZ (Z.log2 (Z.abs u) + 1 + cnt); TZ (ctz (Z.abs u) + cnt); TZ (Z.sgn u); TZ 1].
 Definition api_mpz_neg : api := fun a => out_mpz (mpz_neg (argmpz a 0)).
 Definition api_mpz_abs : api := fun a => out_mpz (mpz_abs (argmpz a 0)).
 Definition api_mpz_set : api := fun a => out_mpz (mpz_set (argmpz a 0)).
